@@ -47,8 +47,6 @@ FIELD = [
 ''', cid='write_field.contract'),
     ins(A.body_start(), '''
         let ghost w0 = w@;'''),
-    rep(A.span('let python_type = self', '.format_type(&field.ty, generic_types)'), 'let python_type = match self.format_type(&field.ty, generic_types)', tag='T14b'),
-    rep(A.span('.map_err(|e|', '?'), O.MAP_ERR_TAIL, tag='T14b', note='map_err(..)? is a match returning the converted error'),
     ins(A.text('let mut field_type = python_type;'), '''let ghost t0 = python_type@;
         ''', where='before'),
     rep(A.text('decorators.join('), 'join_strs(&decorators, ', tag='T3', note='slice join'),
@@ -79,7 +77,7 @@ UNIT = Unit(
     items=O.base_items('Python', SRC) + [
         Item('struct_CustomJsonTranslationFunctions', SRC, ['struct CustomJsonTranslationFunctions']),
         Item('write_field', SRC, ['impl Python {', 'fn write_field'], FIELD, wrap=('impl Python {\n', '\n}\n'),
-             auto=('fmt', 'strlit', 'then_some')),
+             auto=('fmt', 'strlit', 'then_some', 'map_err_q')),
     ],
     functions=['Python::write_field', 'RustType::is_optional', 'RustType::is_double_optional'],
     trusted=O.TRUSTED + ['stubs: python_property_aware_rename and json_translation_for_type are pure functions of their argument; add_common_imports '
